@@ -23,6 +23,10 @@ type Case struct {
 	Moves []string `json:"moves"`
 	UCI   bool     `json:"uci,omitempty"`
 	Start bool     `json:"startpos,omitempty"`
+	// Prefixes: position commands with these shorter move lists are sent first (as a GUI does during a game),
+	// NewGame[i] puts a ucinewgame in front of the i-th command (the last entry: in front of the final one)
+	Prefixes []int  `json:"prefixes,omitempty"`
+	NewGame  []bool `json:"newgame,omitempty"`
 }
 
 func kindAt(p *refchess.Pos, sq int) int {
@@ -176,7 +180,25 @@ func checkUCI(c Case, rec *evid.Rec) error {
 	if len(c.Moves) > 0 {
 		want = p.NormEP()
 	}
-	out, errOut := eng.UCI([]string{cmd, "fen"})
+	var lines []string
+	base := strings.SplitN(cmd, " moves ", 2)[0]
+	for i, k := range c.Prefixes {
+		if k < 0 || k > len(c.Moves) {
+			continue
+		}
+		if i < len(c.NewGame) && c.NewGame[i] {
+			lines = append(lines, "ucinewgame")
+		}
+		pc := base
+		if k > 0 {
+			pc += " moves " + strings.Join(c.Moves[:k], " ")
+		}
+		lines = append(lines, pc)
+	}
+	if n := len(c.Prefixes); n < len(c.NewGame) && c.NewGame[n] {
+		lines = append(lines, "ucinewgame")
+	}
+	out, errOut := eng.UCI(append(lines, cmd, "fen"))
 	got := eng.LastLine(out)
 	if rec != nil {
 		rec.Eval(1)
@@ -249,6 +271,15 @@ func TestC02(t *testing.T) {
 					c.Moves = append(c.Moves, m.String())
 					return true
 				})
+			}
+			if gen.Chance(t, 1, 2, "session") && len(c.Moves) > 0 {
+				k := 0
+				for i := gen.Draw(t, 1, 3, "positionCommands"); i > 0 && k < len(c.Moves); i-- {
+					k += gen.Draw(t, 0, len(c.Moves)-k, "more")
+					c.Prefixes = append(c.Prefixes, k)
+					c.NewGame = append(c.NewGame, gen.Chance(t, 1, 4, "newgame"))
+				}
+				c.NewGame = append(c.NewGame, gen.Chance(t, 1, 4, "newgameLast"))
 			}
 			if rec.WantSample("uci") {
 				rec.Sample("uci", c)
